@@ -1,7 +1,15 @@
 #!/bin/sh
-# re-runs every seeded change against its property's quick check
+# Re-runs every seeded change against its property's quick check WITHOUT touching /repo's working tree:
+# each patch is applied to a scratch worktree of /repo HEAD (tools/mutant_run.sh). For the full confirmation
+# of one change (demo with/without, pinned baseline, apply-to-/repo run) use tools/seeded_verify.sh.
 cd /verif || exit 2
 for dir in seeded/*/; do
   id="$(basename "$dir")"; prop="$(echo "$id" | cut -d- -f1)"
-  tools/seeded_verify.sh "$dir" "$id" "$prop" 2>&1 | grep -E "^SEEDED|PATCH DOES NOT APPLY"
+  case $prop in
+    C17) args="--set max_reports=1 --set shrink_s=20" ;;
+    C11|C20) args="--set max_reports=1 --set shrink_s=20" ;;
+    *) args="--set max_reports=1 --set shrink_s=10" ;;
+  esac
+  out="$(tools/mutant_run.sh "$dir/patch.diff" "$prop" $args 2>&1 | grep -E "^MUTANT|PATCH-FAILED")"
+  echo "$id: $out"
 done
